@@ -13,6 +13,7 @@ CONSTANTS
   N = %d
   P = 11
   IdSeq <- IdsId
+  FreshRedeal = FALSE
   Coefs = {%s}
   HSet = {3}
   H = 3
@@ -37,6 +38,8 @@ def run(ctx):
     quick = ctx.quick()
     # 1. design level: DKG + Lagrange recovery over GF(P), every dealing, delivery order, arrival order
     ref = ctx.tlc("Threshold", cfg="Threshold.cfg" if quick else "Threshold_wide.cfg", coverage=not quick, timeout=1500)
+    # candidate behaviour (a re-dealing dealer picks a new polynomial): the design invariant breaks in the model
+    redeal = ctx.tlc("Threshold", cfg="Threshold_redeal.cfg", allow_violation=True)
     # 2. TLC enumerates (n, responding subset, order class) and checks the recovery algebra per case
     gen, cases, ktable, bign = gen_cases(ctx, 7 if quick else 10, [1, 7], 6 if quick else 7)
     drv = ctx.build("c13")
@@ -53,6 +56,9 @@ def run(ctx):
         if k == 0:
             # thresholds of the signing side and of the DKG for every group size up to 1024
             argv += ["--ksweep", "1024"]
+        if k in (2, 3):
+            # groups with structured member ids, several in one process (history dependence of the recovery)
+            argv += ["--structured", "4,5" if quick else "3,4,5,6,7"]
         if k == 1:
             # one real DKG + recovery where rounding up and "floor + 1" of 51% differ (n = 100), and next to it
             big = sorted(set(bign + ([] if quick else [b + d for b in bign for d in (-1, 1)])))
@@ -67,7 +73,7 @@ def run(ctx):
             raise Inconclusive("driver printed no summary")
         for key, v in re.findall(r"(\w+)=(\d+)", line[-1]):
             counts[key] = counts.get(key, 0) + int(v)
-    for need in ("cases", "dkg", "deliver", "dupDeliver", "arrive", "recovered", "superset", "below", "k", "big", "concurrent"):
+    for need in ("cases", "dkg", "deliver", "dupDeliver", "arrive", "recovered", "superset", "below", "k", "big", "concurrent", "redeal", "structuredCases"):
         if counts.get(need, 0) == 0:
             raise Inconclusive("vacuity: no %s events were produced" % need)
     # 3. one monitor run over all shards (DkgStart / CaseStart reset the bound state)
@@ -104,9 +110,12 @@ def run(ctx):
         "share_arrivals": counts["arrive"],
         "superset_recoveries": counts["superset"],
         "below_threshold_cases": counts["below"],
+        "fresh_redeal_breaks_model_invariant": bool(redeal["error"]),
         "k_table_model": ktable[:10],
         "threshold_sweep_sizes": counts["k"],
         "concurrent_recovery_runs": counts["concurrent"],
+        "dealers_dealing_a_second_time": counts["redeal"],
+        "cases_on_groups_with_structured_ids": counts["structuredCases"],
         "big_group_sizes": bign if quick else sorted(set(bign + [b + d for b in bign for d in (-1, 1)])),
         "action_coverage": ref["coverage"],
         "exhaustive": True,
